@@ -657,7 +657,7 @@ def w_dup(ctx: core.Ctx, arg):
         wsd._networking_thread = thread
         wsd._server_started = True
         window = thread._known_message_ids.maxlen
-        ctx.extra['known_ids_window'] = window
+        ctx.extra['known_ids_window'] = [window]
         pre_out = []
         orig_add = thread.add_outbound_message
 
